@@ -7,7 +7,7 @@ Open Scope list_scope.
 
 Inductive fobs := FNone | FErr (cls : string) | FOk (f : obj).
 Inductive robs := RNone | RErr (cls : string) | ROk (v : obj).
-Inductive tobs := TErr (cls : string) | TText (text : string) (same : bool).
+Inductive tobs := TErr (cls : string) | TText (text : string) (readeq evalsame : bool).
 
 Inductive case :=
 | DCase (v : obj) (form : fobs) (r : robs) (equal : bool) (texts : list (N * tobs)).
@@ -18,7 +18,7 @@ Definition is_unmodelled {A} (r : res A) : bool := match r with Err EUnmodelled 
 Definition obs_meets_spec (v : obj) (r : robs) (equal : bool) (texts : list (N * tobs)) : bool :=
   match r with
   | ROk y => obj_eqb v y && (equal || has_lambda v)
-             && forallb (fun mt => match snd mt with TText _ same => same | TErr _ => false end) texts
+             && forallb (fun mt => match snd mt with TText _ re es => es | TErr _ => false end) texts
   | _ => false
   end.
 
@@ -28,7 +28,7 @@ Definition model_agrees (v : obj) (form : fobs) (r : robs) : bool :=
   | Err _, FErr _ => true
   | Ok f, FOk fo =>
       obj_eqb f fo &&
-      match eval [] f, r with
+      match eval global_env f, r with
       | Ok x, ROk y => obj_eqb x y
       | Err EUnmodelled, _ => true
       | Err _, RErr _ => true
@@ -63,4 +63,4 @@ Definition guarded (c : case) : bool := match c with DCase v FNone _ _ _ => fals
 Definition guard_count (cs : list case) : N := N.of_nat (List.length (filter guarded cs)).
 Definition unmodelled_count (cs : list case) : N :=
   N.of_nat (List.length (filter (fun c => match c with DCase v _ _ _ _ =>
-     match load_form v with Ok f => is_unmodelled (eval [] f) | _ => false end end) cs)).
+     match load_form v with Ok f => is_unmodelled (eval global_env f) | _ => false end end) cs)).
